@@ -10,7 +10,8 @@ Import ListNotations.
 Inductive tref := TN (n : nat) | TL (t : tref) | TNN (t : tref).
 
 Inductive cval :=
-| QNull | QInt (z : Z) | QStr (s : nat) | QBool (b : bool) | QSym (s : nat) | QList (l : list cval).
+| QNull | QInt (z : Z) | QStr (s : nat) | QBool (b : bool) | QSym (s : nat) | QList (l : list cval)
+| QObj (kvs : list (nat * cval)).      (* an input object constant: field name, value *)
 
 Record duse := { du_name : nat; du_args : list (nat * cval) }.
 Record argd := { ad_name : nat; a_desc : list nat; a_ty : tref; a_def : option cval; a_dirs : list duse }.
@@ -141,6 +142,7 @@ Definition coercible_named (fl : flat) (n : nat) (v : cval) : bool :=
   match v with
   | QNull => true
   | QList _ => false
+  | QObj _ => false
   | _ =>
       if Nat.eqb n 0 then match v with QInt z => in_int32 z | _ => false end
       else if Nat.eqb n 1 || Nat.eqb n 7 then match v with QInt _ => true | _ => false end
